@@ -415,6 +415,16 @@ def capture_programs():
             ('except-name-same-spelling', 'def outer_function(%(n)s):\n    try:\n        raise ValueError(%(n)s)\n    except ValueError as %(n)s:\n        seen = str(%(n)s) + str(%(n)s)\n    return seen\nprint(outer_function("message"))\n'),
             ('match-capture-same-spelling', 'def outer_function(%(n)s):\n    match %(n)s:\n        case [first_item, *%(n)s]:\n            return first_item, %(n)s, %(n)s\n        case {"key": %(n)s}:\n            return %(n)s\n    return %(n)s\nprint(outer_function([1, 2, 3]), outer_function({"key": 4}), outer_function(5))\n'),
         ]
+        # a class body at module level reads a module global that it also binds itself: the read goes to the global
+        progs += [
+            ('class-augassign-global', '%(n)s = 10\nclass Registry:\n    %(n)s += 1\ndef report_value():\n    return %(n)s + %(n)s\nprint(Registry.%(n)s, report_value())\n'),
+            ('class-augassign-global-in-blocks', '%(n)s = 6\nclass Registry:\n    if %(n)s:\n        %(n)s |= 9\n    for loop_item in (1, 2):\n        %(n)s *= 2\ndef report_value():\n    return %(n)s + %(n)s + %(n)s\nprint(Registry.%(n)s, report_value())\n'),
+            ('class-augassign-global-only-use', '%(n)s = [1]\nclass Registry:\n    %(n)s += [2]\nprint(Registry.%(n)s, %(n)s, %(n)s, %(n)s)\n'),
+            ('nested-class-augassign-global', '%(n)s = 3\nclass Outer:\n    class Inner:\n        %(n)s -= 1\n    %(n)s **= 2\ndef report_value():\n    return %(n)s, %(n)s\nprint(Outer.%(n)s, Outer.Inner.%(n)s, report_value())\n'),
+            ('class-read-then-assign-global', '%(n)s = 10\nclass Registry:\n    seen_value = %(n)s\n    %(n)s = seen_value + 1\ndef report_value():\n    return %(n)s + %(n)s\nprint(Registry.%(n)s, report_value())\n'),
+            ('class-annotated-assign-reads-global', '%(n)s = 10\nclass Registry:\n    %(n)s: int = %(n)s + 1\ndef report_value():\n    return %(n)s + %(n)s\nprint(Registry.%(n)s, report_value())\n'),
+            ('class-augassign-in-function-class-global', '%(n)s = 5\ndef make_class():\n    class Registry:\n        %(n)s += 1\n    return Registry.%(n)s\ndef report_value():\n    return %(n)s + %(n)s\nprint(make_class(), report_value())\n'),
+        ]
         for kind, template in progs:
             out.append(('capture/%s/%s' % (kind, n), template % d))
     return out
